@@ -726,6 +726,9 @@ impl Interp {
     pub fn index_set(&mut self, a: &RV, i: &RV, val: RV) -> R {
         match (a, i) {
             (RV::Arr(arr), RV::Int(n)) => {
+                if would_cycle(Rc::as_ptr(arr) as *const (), &val) {
+                    return Err(Stop::Unspecified(SELF_CONTAINING.into()));
+                }
                 let mut arr = arr.borrow_mut();
                 if *n < 0 || *n as usize >= arr.len() {
                     Err(rt(ErrClass::Index, "index out of range"))
@@ -746,8 +749,25 @@ impl Interp {
     }
 }
 
+/// Would storing `v` inside the container `target` make it contain itself? (`v` is still acyclic: the reference
+/// never builds a cycle.) Containers that contain themselves are outside every checked domain: printing them is
+/// excluded by C08's statement, hashing / comparing them are recorded open findings, and the reference's own
+/// traversals would not end.
+pub fn would_cycle(target: *const (), v: &RV) -> bool {
+    match v {
+        RV::Arr(a) => Rc::as_ptr(a) as *const () == target || a.borrow().iter().any(|x| would_cycle(target, x)),
+        RV::Map(m) => Rc::as_ptr(m) as *const () == target || m.borrow().iter().any(|(k, x)| would_cycle(target, k) || would_cycle(target, x)),
+        _ => false,
+    }
+}
+
+pub const SELF_CONTAINING: &str = "self-containing container";
+
 /// insert into an association list under language equality; returns the old value
 pub fn map_insert(m: &Rc<RefCell<Vec<(RV, RV)>>>, k: RV, v: RV) -> Result<RV, Stop> {
+    if would_cycle(Rc::as_ptr(m) as *const (), &k) || would_cycle(Rc::as_ptr(m) as *const (), &v) {
+        return Err(Stop::Unspecified(SELF_CONTAINING.into()));
+    }
     let mut mm = m.borrow_mut();
     for slot in mm.iter_mut() {
         match rv_eq(&slot.0, &k) {
